@@ -320,4 +320,98 @@ theorem step_idx {hd : HD K P} (hlaw : hd.Lawful) (hn : hd.NoHardPub) {s : State
     simp only [issuedBy, List.append_nil]; unfold step; simp only
     split; exact x; split; exact x; exact x.frame (opConvertWO_idxFrame _ s)
 
+theorem foldl_runLog_inv {hd : HD K P} (hlaw : hd.Lawful) (hn : hd.NoHardPub) : ∀ (ops : List (Op K P)) (s : State K P)
+    (log : List (KeyObj K P)), Inv hd s → Nodups s → IdxInv hd s log →
+    let r := ops.foldl (fun acc op => ((step Cfg.fixed hd acc.1 op).1,
+      match op with | .create _ => [] | _ => acc.2 ++ issuedBy hd acc.1 op)) (s, log)
+    Inv hd r.1 ∧ Nodups r.1 ∧ IdxInv hd r.1 r.2 := by
+  intro ops
+  induction ops with
+  | nil => intro s log h hnd x; exact ⟨h, hnd, x⟩
+  | cons op t ih =>
+    intro s log h hnd x
+    simp only [List.foldl_cons]
+    exact ih _ _ (step_inv hlaw hn h hnd op) (step_nodups hd s op hnd) (step_idx hlaw hn h x op)
+
+theorem IdxInv_empty (hd : HD K P) : IdxInv hd (emptyState : State K P) [] := by
+  refine ⟨fun sc a ai r h _ => ?_, fun sc a r h => ?_, fun o ho => (by cases ho)⟩
+  · simp [cacheAt, getSM, emptyState, alookup] at h
+  · simp [acctRow, getSD, emptyState, alookup] at h
+
+theorem runLog_inv {hd : HD K P} (hlaw : hd.Lawful) (hn : hd.NoHardPub) (ops : List (Op K P)) :
+    Inv hd (runLog hd ops).1 ∧ Nodups (runLog hd ops).1 ∧ IdxInv hd (runLog hd ops).1 (runLog hd ops).2 :=
+  foldl_runLog_inv hlaw hn ops emptyState [] (Inv_empty hd) emptyState_nodups (IdxInv_empty hd)
+
+/-- what `nextAddresses` returns are exactly the objects it allocated (= appended to the issue log), in order -/
+theorem opNext_reports {hd : HD K P} {s : State K P} (h : Inv hd s) (sc : Scope) (acct n : Nat) (internal : Bool) (hbase : Nat)
+    (infos : List Info) (hres : (opNext hd s sc acct n internal hbase).2.1 = .addrs infos) :
+    infos = (newObjs s (opNext hd s sc acct n internal hbase).1).map infoOfKey := by
+  unfold opNext at hres ⊢
+  split at hres
+  · cases hres
+  · rename_i hacct
+    rw [if_neg hacct]
+    split at hres
+    · cases hres
+    · rename_i s1 ai hl
+      obtain ⟨h1, hc, hf, sm, sd, hsm, hsd⟩ := loadAcct_spec h hl
+      simp only [hl, hsm] at hres ⊢
+      cases internal with
+      | false =>
+        simp only [if_true, Bool.false_eq_true, if_false] at hres ⊢
+        split at hres
+        · cases hres
+        · rename_i c1; rw [if_neg c1]
+          split at hres
+          · cases hres
+          · rename_i c2; rw [if_neg c2]
+            split at hres
+            · cases hres
+            · rename_i c3; rw [if_neg c3]
+              split at hres
+              · cases hres
+              · rename_i idxs hidx
+                split at hres
+                · cases hres
+                · rename_i objs hm
+                  simp only [Res.addrs.injEq] at hres
+                  obtain ⟨_, hobjs⟩ := mkAll_index _ _ _ _ _ _ _ _ _ _ _ hm
+                  obtain ⟨row, hr, c1, _⟩ := commitIssue_rows h1 hc false
+                    (s1.mem.locked && !(s1.mem.watchOnly || ai.keyEnc.isNone)) objs
+                    (getLast idxs ai.nextExt)
+                    (fun o ho => ⟨(hobjs o ho).2.1, (hobjs o ho).2.2⟩)
+                  rw [← hres]
+                  congr 1
+                  symm
+                  apply newObjs_keys
+                  rw [(bindAll_views _ _ _).1, c1, hf.heap]
+      | true =>
+        simp only [if_true, Bool.false_eq_true, if_false] at hres ⊢
+        split at hres
+        · cases hres
+        · rename_i c1; rw [if_neg c1]
+          split at hres
+          · cases hres
+          · rename_i c2; rw [if_neg c2]
+            split at hres
+            · cases hres
+            · rename_i c3; rw [if_neg c3]
+              split at hres
+              · cases hres
+              · rename_i idxs hidx
+                split at hres
+                · cases hres
+                · rename_i objs hm
+                  simp only [Res.addrs.injEq] at hres
+                  obtain ⟨_, hobjs⟩ := mkAll_index _ _ _ _ _ _ _ _ _ _ _ hm
+                  obtain ⟨row, hr, c1, _⟩ := commitIssue_rows h1 hc true
+                    (s1.mem.locked && !(s1.mem.watchOnly || ai.keyEnc.isNone)) objs
+                    (getLast idxs ai.nextInt)
+                    (fun o ho => ⟨(hobjs o ho).2.1, (hobjs o ho).2.2⟩)
+                  rw [← hres]
+                  congr 1
+                  symm
+                  apply newObjs_keys
+                  rw [(bindAll_views _ _ _).1, c1, hf.heap]
+
 end AddrDerive
